@@ -6,7 +6,9 @@ import (
 	"fmt"
 	"os"
 	"path/filepath"
+	"runtime"
 	"runtime/debug"
+	"strconv"
 	"strings"
 	"time"
 )
@@ -61,6 +63,22 @@ func PanicSignature(stack string) string {
 // violation of class "panic".
 func RunOnce(eng Engine, rc *RunCtx) (res RunResult) {
 	t0 := time.Now()
+	// wall-clock watchdog per run: a run that neither finishes nor fails is a
+	// harness problem (e.g. a goroutine blocked non-durably inside a bubble);
+	// dump all stacks so that it can be diagnosed, and die (the runner reports exit 2).
+	limit := 300 * time.Second
+	if v := os.Getenv("VERIF_RUN_TIMEOUT_S"); v != "" {
+		if n, err := strconv.Atoi(v); err == nil && n > 0 {
+			limit = time.Duration(n) * time.Second
+		}
+	}
+	wd := time.AfterFunc(limit, func() {
+		buf := make([]byte, 1<<22)
+		n := runtime.Stack(buf, true)
+		fmt.Fprintf(os.Stderr, "RUN-TIMEOUT property=%s profile=%s run=%d seed=%d after %v\n%s\n", rc.Property, rc.Profile, rc.RunIndex, rc.Seed, limit, buf[:n])
+		os.Exit(3)
+	})
+	defer wd.Stop()
 	func() {
 		defer func() {
 			if p := recover(); p != nil {
